@@ -211,12 +211,12 @@ def run_path(I, c, fn, module, res):
         if outcome[0] == 'return':
             res.normal_exits += 1
             result = outcome[1]
-            # final_<parameter>: the value the parameter name holds at exit (a parameter rebound in the body, e.g. a
-            # default filled in); only meaningful in '@check' clauses, call sites cannot see it
+            # final_<name>: the value a parameter or local name holds at exit (a parameter rebound in the body, a callee's
+            # result kept in a local); only meaningful in '@check' clauses, call sites cannot see it
             xtra = {'result': result}
-            for p in params:
-                if p in fr.env:
-                    xtra['final_' + p] = fr.env[p]
+            for p in list(fr.env):
+                if isinstance(p, str) and p.isidentifier():
+                    xtra['final_' + p] = fr.env[p]      # parameters as rebound and plain locals, at exit
             for i, e in enumerate(c.ensures):
                 g = I.goal(e, pf, xtra)
                 ctx.oblige(I.oname('post', None, i), g, 'post')
